@@ -5,8 +5,8 @@ from props.framelib import *
 
 PROBE = os.path.join(VERIF, "probe")
 
-RULE = ("MC: the gate relation extracted from the source (cfg(any(..)) lists of shared modules, `use super::<module>::*` of every message file, the message! "
-        "table, include_msg! list, all_msgs, feature declarations): every feature that uses a gated module is in its gate list, all lists agree; "
+RULE = ("MC (predict): the gate relation extracted from the source (cfg(any(..)) lists of shared modules, `use super::<module>::*` of every message file, the message! "
+        "table, include_msg! list, all_msgs, feature declarations): every feature that uses a gated module is in its gate list, all lists agree - a discrepancy is a prediction that is confirmed or refuted by really building the implicated features; "
         "TV (one observation per configuration, the decisive step is a real build): a probe crate is built against /repo with default features off (so "
         "without std: #![no_std]) and exactly one message feature (also: no feature, all_msgs, and sampled ones with serde) and decodes a corpus of frames "
         "of every supported type produced by the full build; TLC requires build ok, frames of the selected type decoded to the same message as in the full "
@@ -47,23 +47,35 @@ def run(chk):
     q = chk.quick
     run_extractor()
     g = json.load(open(os.path.join(WORK, "gen", "gates.json")))
-    # MC_Features evaluates the gate property on the relation EXTRACTED FROM THE CODE: a failing assumption there is a
-    # statement about the code (a feature missing from a hand-kept list), hence a violation, not a tool error
+    # MC_Features evaluates the gate property on the relation EXTRACTED FROM THE SOURCE TEXT.  That relation is a model of how
+    # the crate organises its cfg gates today; a refactoring can change the organisation without breaking C19.  A failing
+    # assumption is therefore a PREDICTION ("these features cannot be selected alone / do not decode alone"), not a verdict:
+    # every feature it implicates is added to the configurations that are really built and probed below, and only a real
+    # build / decode failure is reported.
+    implicated, predicted = set(), []
     try:
         chk.add_mc(mc("MC_Features", "MC_Features.cfg", workers=1))
     except ToolError as e:
         if "Assumption" not in str(e):
             raise
-        missing = []
+        fs = set(g["features"])
         for n, uses in g["uses"].items():
             for m in uses:
                 if m in g["gates"] and int(n) not in g["gates"][m]:
-                    missing.append("feature msg%s uses %s but is not in its cfg(any(..)) list" % (n, m))
-        chk.violation("gate relation: " + ("; ".join(missing)[:200] if missing else "feature lists disagree"),
-                      "the hand-maintained feature lists are inconsistent (MC_Features on the extracted Gates): " + ("; ".join(missing) or str(e)[-400:]),
-                      {"gates": g["gates"], "missing": missing, "tlc": str(e)[-1500:]})
+                    predicted.append("feature msg%s uses %s but is not in its cfg(any(..)) list" % (n, m))
+                    implicated.add(int(n))
+        for name, other in (("all_msgs", set(g["all_msgs"])), ("include_msg!", set(g["includes"])), ("message! table", set(r[3] for r in g["rows"]))):
+            d = fs ^ other
+            if d and other:
+                predicted.append("%s differs from the feature declarations by %s" % (name, sorted(d)[:12]))
+                implicated.update(d & fs)
+        for n in g["chained"]:
+            predicted.append("feature msg%d switches other features on" % n)
+            implicated.add(n)
+        log("MC_Features: the extracted gate relation violates the gate model; predictions to be confirmed by real builds: %s" % ("; ".join(predicted)[:600] or "lists not found in the expected form"))
         chk.cov["states"] += 1
         chk.cov["transitions"] += 1
+        chk.assumptions.append("MC_Features rejected the extracted gate relation (%s); its predictions were checked by building the implicated configurations" % ("; ".join(predicted)[:300] or "source organisation changed"))
     feats = g["features"]
     lock = os.path.join(PROBE, "Cargo.lock")
     if not os.path.exists(lock):
@@ -79,6 +91,11 @@ def run(chk):
             if n in feats:
                 pick.add(n)
         singles = sorted(pick)[:18]
+        more = sorted(implicated & set(feats))
+        if len(more) > 30:
+            rnd.shuffle(more)
+            more = more[:30]
+        singles = sorted(set(singles) | set(more))
         extra_serde = [rnd.choice(feats)]
     else:
         singles = list(feats)
